@@ -69,6 +69,13 @@ pub fn run_c14(a: &Args) {
         st.evaluations += 1;
         match tread(b) { Some(Some(t)) => if t.code() != *c { st.fail(format!("[C14] the wire form of {c} decodes to {}", t.code()), hex(&b)); }, Some(None) => st.fail(format!("[C14] the wire form of configuration {c} (its short code NUL-padded) does not decode"), hex(&b)), None => st.fail("[C14] Track decoding panics".into(), hex(&b)) }
     }
+    // ... and however the WRITER takes them (1, 4 or 5 bytes per write() call): all six bytes, or an error - never a shortened field with Ok
+    for c in crate::gen::tracks::TRACK_CODES.iter() { for k in [1usize, 4, 5] {
+        let mut v = c.as_bytes().to_vec(); v.resize(6, 0); st.evaluations += 1;
+        let Some(Some(t)) = tread([v[0], v[1], v[2], v[3], v[4], v[5]]) else { continue };
+        let r = guard(|| { let mut w = DribbleW { inner: Cursor::new(Vec::new()), k }; t.write_le(&mut w).ok().map(|_| w.inner.into_inner()) });
+        match r { Some(Some(b)) if b == v => {}, Some(None) => {}, other => st.fail(format!("[C14] {c} written to a writer that takes {k} byte(s) per call: Ok with the bytes {:?} instead of {}", other.map(|x| x.map(|y| hex(&y))), hex(&v)), format!("dribblew {k} {c}")) }
+    } }
     // a configuration is its 6 bytes however the reader hands them over (1, 3 or 4 bytes per read() call)
     for c in crate::gen::tracks::TRACK_CODES.iter() { for k in [1usize, 3, 4] {
         let mut v = c.as_bytes().to_vec(); v.resize(6, 0); st.evaluations += 1;
@@ -370,6 +377,23 @@ pub fn run_c15(a: &Args) {
         let fits = ms / scale <= u32::MAX as u128;
         match encode_p(true, &insim::Packet::Small(p)) { Enc::Ok(b) => { let w = u32::from_le_bytes([b[4], b[5], b[6], b[7]]) as u128; if !fits || w != ms / scale { st.fail(format!("[C15] Small sub-type {subt} duration {ms} ms encoded as {w}"), format!("small {subt} {ms}")); } }, Enc::Err => if fits { st.fail(format!("[C15] Small duration {ms} ms refused"), format!("small {subt} {ms}")); }, Enc::Panic => st.fail(format!("[C15] Small duration {ms} ms panics"), format!("small {subt} {ms}")) }
     }
+    // a race-length byte means the same whatever the packet's OTHER fields say (race in progress or qualifying, any view, any wind): every
+    // enumeration field of the packet at every one of its values, around race-length bytes of each class
+    { use crate::{gen::layouts::KINDS, layout::{width, Atom, Custom}};
+      for compressed in [true, false] { for k in KINDS.iter() {
+        let mut rl: Vec<usize> = vec![]; let mut enums: Vec<(usize, &'static [u8])> = vec![]; let mut off = 2;
+        for (_, at) in k.fixed { match at { Atom::Custom(Custom::RaceLaps, _) => rl.push(off), Atom::Enum(vs) => enums.push((off, vs)), _ => {} } off += width(at); }
+        if rl.is_empty() { continue; }
+        let Some(f) = crate::wire::stable_frame(&mut rng, k, compressed, Some(0)) else { continue };
+        for ro in &rl { for (eo, vs) in &enums { for v in vs.iter() { for b in [0u8, 1, 50, 99, 100, 150, 190, 191, 215, 238] {
+            let mut g = f.clone(); if *eo >= g.len() || *ro >= g.len() { continue; } g[*eo] = *v; g[*ro] = b; st.evaluations += 1;
+            let id = format!("rlctx {} {}", if compressed { "C" } else { "U" }, crate::common::hex(&g));
+            match crate::wire::decode_buf(compressed, &g) {
+                crate::wire::Dec::Got(p, _) => match encode_p(compressed, &p) { Enc::Ok(e) if e == g => {}, Enc::Ok(e) => st.fail(format!("[C15] {}: race-length byte {b} with the enumeration field at offset {eo} = {v} re-encodes as {}", k.name, e.get(*ro).copied().unwrap_or(0)), id), _ => st.fail(format!("[C15] {}: race-length byte {b} with the enumeration field at offset {eo} = {v}: the decoded packet does not encode", k.name), id) },
+                d => st.fail(format!("[C15] {}: race-length byte {b} with the enumeration field at offset {eo} = {v} is not decoded: {}", k.name, crate::wire::cls_string(&d)), id),
+            }
+        } } } }
+      } } }
     // the same rule through the builder: an IS_ISI interval beyond the 16-bit millisecond field is refused when the handshake packet is
     // encoded - never sent as a different interval
     for ms in [0u64, 1, 999, 65_534, 65_535, 65_536, 65_537, 70_000, 131_071, 3_600_000, 4_294_967_296] { for extra_ns in [0u32, 1, 999_999] {
